@@ -80,7 +80,7 @@ def main():
             "scheduling": rec["outs"] if not job.get("drop_outs") else [o for o in rec["outs"] if o in ("acc", "ref")],
             "cancelled": rec["canc"],
             "statistics": [[x[0], x[1], x[2], x[3], x[4]] for x in rec["final_stats"]],
-            "final": rec["snaps"][-1] if rec["snaps"] else None,
+            "final": rec["snaps"][-1][1:] if rec["snaps"] else None,
         }
         digest = hashlib.sha256(json.dumps(parts, sort_keys=True).encode()).hexdigest()
         out = {"digest": digest, "parts": parts, "notes": rec["notes"],
